@@ -320,6 +320,23 @@ class C10(Check):
         h_rel = 1.0e-11 if kind.startswith("rod") else 1.0e-15  # elastica regularises rod.lengths at the 1e-13 level
         return {"h_rel": h_rel, "inter": inter, "twin": twin, "twin_field": twin_field, "model": model, "state": state_arrays, "move": move, "n": n, "kind": kind, "evals_since_step": 0, "ever_eval": False, "dts": []}
 
+    @staticmethod
+    def _rigid_marker_velocity(b, it, dim):
+        if b["kind"] not in ("cylinder", "sphere", "plane"):
+            return None
+        st = b["state"]
+        x = np.asarray(it.forcing_grid.position_field, dtype=np.float64)
+        if dim == 2:
+            r = x - st["p"][:2]
+            wz = st["Q"][2, 2, 0] * st["w"][2, 0]
+            v = np.empty_like(x)
+            v[0] = st["v"][0, 0] - wz * r[1]
+            v[1] = st["v"][1, 0] + wz * r[0]
+            return v
+        r = x - st["p"]
+        w = st["Q"][:, :, 0].T @ st["w"][:, 0]
+        return st["v"] + np.cross(w, r.T).T
+
     # ------------------------------------------------------------------ execute
     def execute(self, program, res):
         from ..seams import install
@@ -374,6 +391,15 @@ class C10(Check):
                     it.compute_interaction_on_lag_grid()
                     tw.compute_interaction_on_lag_grid()
                 v_body = np.asarray(it.forcing_grid.velocity_field, dtype=np.float64)
+                # (a0) the body velocity at the markers must be the *current* one: for rigid bodies
+                # v = v_com + omega x (x_marker - x_com) from the body state at this very moment
+                v_now = self._rigid_marker_velocity(b, it, dim)
+                if v_now is not None:
+                    tolk = 64 * 2.3e-16 * (1.0 + float(np.max(np.abs(v_now), initial=0.0)))
+                    if not np.all(np.abs(v_body - v_now) <= tolk):
+                        res.violation("pi_law", dict(sig0, what="body_velocity_not_current", grid=b["kind"], op=kind), f"op {oi} {kind} body {bi} ({b['kind']}): marker velocity used for the mismatch deviates from v_com + omega x r of the current body state by {float(np.max(np.abs(v_body - v_now))):.3e}", oi)
+                    v_body = v_now
+                    res.probe("rigid_body_kinematics_checked")
                 U_obs = np.asarray(it.lag_grid_flow_velocity_field, dtype=np.float64)
                 V_obs = np.asarray(it.lag_grid_velocity_mismatch_field, dtype=np.float64)
                 vmax = float(np.max(np.abs(v_body), initial=0.0))
